@@ -1,7 +1,7 @@
 (* C06 - output records are atomic and carry the label of the host that produced them.
    Statements only; proofs in Dsh/OutputFacts.v and Base/ShuffleFacts.v. *)
 (* before_eof, script_ok, stream_of, in_domain, in_domain_wide: Dsh/OutputDomain.v *)
-From PV Require Import Cbuf.CbufDefs Cbuf.CbufFd Dsh.Output Dsh.OutputSpec Dsh.OutputDomain Dsh.OutputFacts Base.Shuffle.
+From PV Require Import Cbuf.CbufDefs Cbuf.CbufFd Dsh.Output Dsh.OutputSpec Dsh.OutputDomain Dsh.OutputFacts Base.Shuffle Dsh.Domain.
 Local Open Scope N_scope.
 
 (* Every stdio call is one whole record and nothing else: for every stream in the domain and
@@ -54,3 +54,23 @@ Proof.
   - change (snd (split_lines _)) with [98;97]. unfold line_ok. vm_compute. discriminate.
   - intros _. vm_compute. reflexivity.
 Qed.
+
+(* ---- when do the labels keep the domain? ----
+   dsh() walks the target list once, remembers the domain (the text from the first '.') of the first dotted target and
+   raises the flag when a later dotted target has a different one (exact comparison); -K raises it outright.  The flag is up
+   exactly when -K was given or two targets lie in different domains - whatever the order of the targets, however many
+   targets have no dot, and however the domains are related as strings (prefix, case). *)
+Theorem C06_domain_rule : forall optK targets,
+  domain_in_label optK targets = true <->
+  optK = true \/ exists a b da db, In a targets /\ In b targets /\ domain_of a = Some da /\ domain_of b = Some db /\ da <> db.
+Proof. exact domain_in_label_spec. Qed.
+Print Assumptions C06_domain_rule.
+
+Example C06_domain_rule_nonvacuous :
+  (* n1.example.co, n2.example.com: one domain is a prefix of the other *)
+  domain_in_label false [[110;49;46;101;120;46;99;111]; [110;50;46;101;120;46;99;111;109]] = true /\
+  (* gw, n1.alpha, n1.beta: the first target has no dot *)
+  domain_in_label false [[103;119]; [110;49;46;97]; [110;49;46;98]] = true /\
+  (* a.d, b.d, c: one domain *)
+  domain_in_label false [[97;46;100]; [98;46;100]; [99]] = false.
+Proof. repeat split; vm_compute; reflexivity. Qed.
